@@ -479,17 +479,9 @@ func (in *Interp) visitInstr(fr *frame, instr ssa.Instruction) continuation {
 		*addr = in.zero(deref(instr.Type()))
 
 	case *ssa.MakeSlice:
-		n := in.mustInt(fr.get(instr.Cap), "make cap")
-		l := in.mustInt(fr.get(instr.Len), "make len")
-		if n < 0 || l < 0 || l > n {
-			panic(targetPanic{msg: "runtime error: makeslice: len out of range"})
-		}
-		if n > in.P.MaxAlloc {
-			panic(unsupported{fmt.Sprintf("makeslice of %d elements exceeds engine limit", n)})
-		}
-		in.noteAlloc(fr, instr, n)
-		s := make(sliceVal, n)
 		tElt := instr.Type().Underlying().(*types.Slice).Elem()
+		n, l := in.makeSizes(fr, instr, fr.get(instr.Cap), fr.get(instr.Len), tElt)
+		s := make(sliceVal, n)
 		for i := range s {
 			s[i] = in.zero(tElt)
 		}
@@ -780,15 +772,70 @@ func (in *Interp) selectOp(fr *frame, instr *ssa.Select) value {
 	return r
 }
 
-// ---- allocation log (C14)
+// ---- allocation sizes (C14)
 
-type AllocRec struct {
-	Where string
-	N     int
-}
+var gcSizes = types.SizesFor("gc", "amd64")
 
-func (in *Interp) noteAlloc(fr *frame, instr ssa.Instruction, n int) {
-	if l, ok := in.extra["alloclog"].(*[]AllocRec); ok {
-		*l = append(*l, AllocRec{Where: fr.fn.String(), N: n})
+// makeSizes returns concrete capacity and length for a make([]T, len, cap). A symbolic length is
+// recorded (bytes = len * sizeof(T)) in the allocation log; it is concretised when it is small,
+// and replaced by a bounded *view* when it can exceed the harness's allocation view: code that
+// fills such a slice from the input stops at the end of the (shorter) input. The view must be
+// larger than the input the harness supplies (vh.SetAllocView).
+func (in *Interp) makeSizes(fr *frame, instr ssa.Instruction, capV, lenV value, tElt types.Type) (int, int) {
+	c := in.C
+	lt := lenV.(*smt.Term)
+	ct := capV.(*smt.Term)
+	esz := gcSizes.Sizeof(tElt)
+	if esz == 0 {
+		esz = 1
 	}
+	if tot, ok := in.extra["allocbytes"].(*smt.Term); ok {
+		c64 := ct
+		if ct.Sort.W < 64 {
+			c64 = c.SExt(ct, 64)
+		}
+		b := c.BVMul(c64, c.BVConstI(esz, 64))
+		in.extra["allocbytes"] = c.Ite(c.BVULt(tot, b), b, tot)
+	}
+	view, _ := in.extra["allocview"].(int)
+	if !ct.IsConst() && view > 0 {
+		w := ct.Sort.W
+		if in.branch(c.BVSLt(ct, c.BVConstI(0, w))) {
+			panic(targetPanic{msg: "runtime error: makeslice: cap out of range"})
+		}
+		if in.branch(c.BVSLt(c.BVConstI(int64(view), w), ct)) {
+			in.path.noteAssumption(fmt.Sprintf("an allocation larger than the allocation view (%d elements) is represented by its first %d elements; the input is shorter than that", view, view+1))
+			n := view + 1
+			if lt == ct {
+				return n, n
+			}
+			if lt.IsConst() {
+				l := int(lt.I64())
+				if l < 0 {
+					panic(targetPanic{msg: "runtime error: makeslice: len out of range"})
+				}
+				if l > n {
+					l = n
+				}
+				return n, l
+			}
+			if in.branch(c.BVSLt(c.BVConstI(int64(view), lt.Sort.W), lt)) {
+				return n, n
+			}
+			l := in.mustInt(lenV, "make len")
+			if l < 0 {
+				panic(targetPanic{msg: "runtime error: makeslice: len out of range"})
+			}
+			return n, l
+		}
+	}
+	n := in.mustInt(capV, "make cap")
+	l := in.mustInt(lenV, "make len")
+	if n < 0 || l < 0 || l > n {
+		panic(targetPanic{msg: "runtime error: makeslice: len out of range"})
+	}
+	if n > in.P.MaxAlloc {
+		panic(unsupported{fmt.Sprintf("makeslice of %d elements exceeds engine limit", n)})
+	}
+	return n, l
 }
